@@ -93,6 +93,9 @@ def safe_execute(mod, scn, keep_log=False):
     except kernel.LibraryHang as e:
         res = {'violations': [{'clause': 'hang', 'msg': 'thread %s made no progress for %.0f s of wall time inside %s (endless or super-linear loop)' % (
             e.thread, 20.0, e.site), 'feat': {'site': e.site}}], 'stats': {}, 'nontrivial': True, 'digest': 'hang'}
+    except kernel.IllegalFrame as e:
+        res = {'violations': [{'clause': 'illegal-frame', 'msg': 'the stack handed send_message a frame no CAN interface can send: %s' % e, 'feat': {}}],
+               'stats': {}, 'nontrivial': True, 'digest': 'illegal-frame'}
     except kernel.EventBudgetExceeded as e:
         # the simulated system keeps producing events without end (frames answering frames): unbounded activity of the code under
         # test, not a simulator failure - no scenario of any check comes near the budget on a tree where the stack settles
@@ -102,8 +105,16 @@ def safe_execute(mod, scn, keep_log=False):
         res = {'violations': [], 'harness': 'HarnessError: %s\n%s' % (e, traceback.format_exc()), 'stats': {},
                'nontrivial': False, 'digest': 'harness'}
     except Exception as e:  # a bug in the harness or an exception escaping the library into the harness
-        res = {'violations': [], 'harness': 'exception in harness: %r\n%s' % (e, traceback.format_exc()), 'stats': {},
-               'nontrivial': False, 'digest': 'harness'}
+        site = lib_site_of_exception(e)
+        last = traceback.extract_tb(e.__traceback__)[-1].filename if e.__traceback__ else ''
+        if site and last.startswith(REPO) and '/j1939/' in last:
+            # raised inside the library and not caught by the harness: an entry point that raised for a call every check considers legal
+            # (entry points that may raise are called inside try/except by the checks)
+            res = {'violations': [{'clause': 'api-raised', 'msg': '%r escaped from %s' % (e, site), 'feat': {'exc': type(e).__name__, 'site': site}}],
+                   'stats': {}, 'nontrivial': True, 'digest': 'api-raised'}
+        else:
+            res = {'violations': [], 'harness': 'exception in harness: %r\n%s' % (e, traceback.format_exc()), 'stats': {},
+                   'nontrivial': False, 'digest': 'harness'}
     finally:
         signal.setitimer(signal.ITIMER_REAL, 0)
         if kernel.CURRENT is not None:
